@@ -219,13 +219,13 @@ class Composite(Datum):
             # copy the nested dictionaries so that the merged-in
             # composite does not share them with this one
             merge_processes.update(
-                deep_copy_internal(composite['processes']))
+                _copy_nested_dicts(composite['processes']))
             merge_topology.update(
-                deep_copy_internal(composite['topology']))
-            merge_steps.update(deep_copy_internal(composite['steps']))
-            merge_flow.update(deep_copy_internal(composite['flow']))
+                _copy_nested_dicts(composite['topology']))
+            merge_steps.update(_copy_nested_dicts(composite['steps']))
+            merge_flow.update(_copy_nested_dicts(composite['flow']))
             merge_state.update(
-                deep_copy_internal(composite.get('state', {})))
+                _copy_nested_dicts(composite.get('state', {})))
 
         # (the loose arguments too: their nested dictionaries stay the
         # caller's)
